@@ -13,6 +13,7 @@ import TzVerif.Model.Find
 import TzVerif.Spec.Zone
 import TzVerif.Proofs.Search
 import TzVerif.Proofs.SearchRule
+import TzVerif.Proofs.SpecGaps
 
 namespace TzVerif.C06
 open TzVerif.Model TzVerif.Proofs
@@ -131,5 +132,21 @@ example :
     let z : TimeZone := { transitions := [⟨3600, 1⟩, ⟨86400, 0⟩, ⟨172800, 0⟩], localTimeTypes := [t0, t1], leapSeconds := [], extraRule := none }
     (findDateTime 1970 1 1 1 30 0 0 z).toOption.map (fun rs => (rs.length, rs.filter isSkipped |>.length)) = some (1, 1) := by
   decide +kernel
+
+/-- The gap part of C06 as ONE set equality against the executable specification the differential oracle uses
+    (`C06.gaps_reported_exactly`): for every zone the constructor accepts whose rule (if any) meets C04's
+    hypotheses, and searched fields of the Rust argument types with the year at least three inside the year guard,
+    the reported gaps are exactly `Spec.gapSet` — the forward transitions (table, then rule instants after the
+    table) with T + offset_before ≤ c < T + offset_after. -/
+theorem reported_gaps_are_the_spec_set (y mo d h mi s ns : Int) (z : TimeZone) (rs : List Found)
+    (hz : ZoneGood z) (hfd : FieldsGood y mo d h mi s)
+    (hf : findDateTime y mo d h mi s ns z = .ok rs) (T : Int) (a b : LocalTimeType) :
+    (T, a, b) ∈ Spec.gapSet z (Spec.seconds y mo d h mi s) ↔
+      ∃ xb xa, Found.skipped xb xa ∈ rs ∧ xb.unixTime = T ∧ xb.localTimeType = a ∧ xa.localTimeType = b :=
+  gaps_are_gapSet y mo d h mi s ns z rs hz hfd hf T a b
+
+theorem spec_gap_set_meaning (z : TimeZone) (c T : Int) (a b : LocalTimeType) :
+    (T, a, b) ∈ Spec.gapSet z c ↔ ((T, a, b) ∈ Spec.transitionsNear z c ∧ T + a.utOffset ≤ c ∧ c < T + b.utOffset) :=
+  gapSet_mem_iff z c T a b
 
 end TzVerif.C06
